@@ -330,7 +330,7 @@ def gen_val_prop(r, n):
 def gen_cases(ctx):
     r = ctx.rng
     nmax, emax = (30, 3) if ctx.quick else (60, 4)
-    N = 220 if ctx.quick else 4000
+    N = 180 if ctx.quick else 4000
     cases = []
     # few (batch size, has_cond) buckets dominate compile time: draw effective batch sizes from a per-run pool + free ones
     pool = sorted({1, 2, 3} | {int(v) for v in r.integers(1, nmax + 1, size=6 if ctx.quick else 40)})
